@@ -162,6 +162,18 @@ func VerifC04Acks() {
 	vAssert(log.NewestOffset() == next-1, "exactly the accepted messages are stored")
 
 	// ---- follow-up actions in any order; after each one the commit loop has run
+	// the harness's own account of the world, independent of the leader's
+	// bookkeeping: which replicas are in sync (by the ISR changes applied) and
+	// up to which offset each follower has stored the log (what it last
+	// reported in a replication request; nothing before its first report)
+	vC04InSync = map[string]bool{}
+	vC04Held = map[string]int64{}
+	for _, r := range isrAtStart {
+		vC04InSync[r] = true
+	}
+	for _, r := range replicas[1:] {
+		vC04Held[r] = -1
+	}
 	seenAcks, lastHW := 0, int64(-1)
 	vCheckCommitStep(p, &seenAcks, &lastHW)
 	steps := vParam("actions", 2)
@@ -172,17 +184,24 @@ func VerifC04Acks() {
 			off := vNondetInt64("reported")
 			vAssume(off >= -1)
 			vAssume(off <= next-1)
+			if r != replicas[0] {
+				vC04Held[r] = off
+			}
 			p.updateISRLatestOffset(r, off)
 		case 1: // ISR shrink
 			if rf == 1 {
 				return
 			}
-			vAssert(p.RemoveFromISR(replicas[1+vChoose(rf-1)]) == nil, "RemoveFromISR succeeds")
+			r := replicas[1+vChoose(rf-1)]
+			vAssert(p.RemoveFromISR(r) == nil, "RemoveFromISR succeeds")
+			delete(vC04InSync, r)
 		case 2: // ISR expand
 			if rf == 1 {
 				return
 			}
-			vAssert(p.AddToISR(replicas[1+vChoose(rf-1)]) == nil, "AddToISR succeeds")
+			r := replicas[1+vChoose(rf-1)]
+			vAssert(p.AddToISR(r) == nil, "AddToISR succeeds")
+			vC04InSync[r] = true
 		}
 		vYield()
 		vCheckCommitStep(p, &seenAcks, &lastHW)
@@ -193,16 +212,27 @@ func VerifC04Acks() {
 
 // vCheckCommitStep checks what the commit loop did since the last call: every
 // new ALL-policy ack and every HW advance is justified by the ISR as it is now.
+var (
+	vC04InSync map[string]bool
+	vC04Held   map[string]int64
+)
+
 func vCheckCommitStep(p *partition, seen *int, lastHW *int64) {
-	p.mu.RLock()
-	isrSize := len(p.isr)
-	minOff := int64(1 << 60)
-	for _, rep := range p.isr {
-		if o := rep.getLatestOffset(); o < minOff {
-			minOff = o
+	// by the harness's account (not the leader's): size of the in-sync set and
+	// the smallest offset up to which a member has stored the log
+	isrSize := len(vC04InSync)
+	minOff := p.log.NewestOffset() // the leader itself
+	for r := range vC04InSync {
+		if held, follower := vC04Held[r]; follower && held < minOff {
+			minOff = held
 		}
 	}
+	p.mu.RLock()
 	minISR := p.minISR
+	vAssert(len(p.isr) == isrSize, "the leader's in-sync set is the one the ISR changes produced")
+	for r := range p.isr {
+		vAssert(vC04InSync[r], "the leader's in-sync set is the one the ISR changes produced")
+	}
 	p.mu.RUnlock()
 	for ; *seen < len(vAcks); *seen++ {
 		a := vAcks[*seen]
